@@ -75,15 +75,19 @@ PROPERTIES = {
         assumptions=[],
     ),
     'C11': dict(
-        units=['timeout', 'kani_timeout', 'kani_poll', 'active_peers'],
-        canaries=['timeout', 'poll'],
+        units=['timeout', 'kani_timeout', 'kani_poll', 'active_peers', 'wire'],
+        canaries=['timeout', 'poll', 'streams'],
         counterexample=cex.cex_c11,
         extra=[validate.default_timeouts_wiring],
         scope='the deadline armed for a request is exactly min(local default, timeout header) in both directions, either may be absent, an '
               'unparsable header counts as absent (closure contract), so a remote peer can shorten but never extend or disable the local limit (lemma); '
-              'the request reaches the wrapped service exactly once; header parsing and printing; the configured defaults are what the accessors and layers hand to the middleware.',
+              'the request reaches the wrapped service exactly once; header parsing and printing; the configured defaults are what the accessors and layers hand to the middleware; '
+              'WIRING (tower builders as recorders): the two statements of Builder::start that build the layer stacks put the timeout middleware outermost, armed with the configured default '
+              '(outbound: followed only by the user\'s layer; inbound: ending at the user\'s service); every peer handle a network hands out carries that outbound stack (NetworkInner::peer) '
+              'and every RPC made through a handle passes it and ends at do_rpc on the handle\'s own connection (Peer::call).',
         unverified=['that tokio actually wakes the future when the timer fires, and drops the handler future when the response future completes (runtime)',
-                    'Builder::start installs both layers around the user service and every outbound call with the configured values: NOT under contract (ServiceBuilder / BoxLayer generics); exercised end to end on real networks by the execution check default_timeouts_wiring',
+                    'what tower does with a layer stack (the builders are recorders); Peer::call\'s innermost service is a closure returning an async block: replaced by a stand-in ONLY when it has literally the shape |request| peer.do_rpc(request) (rule X12, a trusted syntactic check); the whole path is exercised end to end by the execution check default_timeouts_wiring',
+                    'ConnectionManager::new receiving the inbound service stack and handing it to every InboundRequestHandler (plumbing of a value through constructors, not under contract)',
                     'meaning of str::parse::<u64> and u64::to_string (std; uninterpreted, assumed inverse)'],
         assumptions=['tokio::time::sleep(d) arms a timer of duration d (millisecond granularity)'],
     ),
